@@ -295,6 +295,34 @@ func readBytes(b []byte, alloc bool) readOutcome {
 	return readFrom(bytes.NewReader(b), len(b), alloc)
 }
 
+// stepLimitSeeker is a seekable source (like *os.File or bytes.Reader) with a step budget
+// on reads and seeks.
+type stepLimitSeeker struct {
+	stepLimitReader
+	s io.Seeker
+}
+
+func (s *stepLimitSeeker) Seek(off int64, whence int) (int64, error) {
+	if s.left <= 0 {
+		s.blown = true
+		return 0, io.ErrUnexpectedEOF
+	}
+	s.left--
+	return s.s.Seek(off, whence)
+}
+
+// readSeekable reads from a source that also implements io.Seeker.
+func readSeekable(b []byte, alloc bool) readOutcome {
+	var o readOutcome
+	br := bytes.NewReader(b)
+	sl := &stepLimitSeeker{stepLimitReader: stepLimitReader{r: br, left: 16*len(b) + 4096}, s: br}
+	o.call = guarded(libBudget, alloc, func() {
+		o.s, o.err = smf.ReadFrom(sl)
+	})
+	o.steps = sl.blown
+	return o
+}
+
 type writeOutcome struct {
 	size int64
 	err  error
